@@ -703,6 +703,92 @@ theorem fold_cap (u : Univ) : ∀ (ops : List Op) (s : St), s.b.a.capacity ≤ (
  | [], _ => Nat.le_refl _
  | op :: ops, s => Nat.le_trans (step_cap u s op) (fold_cap u ops (step u s op))
 
+/-! ### what a freshly constructed node reads -/
+
+/-- number of scalar fields before field `k`: the position of field `k`'s value among the scalars given to the constructor -/
+def scalIdx : Cls → Nat → Nat
+ | [], _ => 0
+ | _ :: _, 0 => 0
+ | .scal :: r, k + 1 => 1 + scalIdx r k
+ | _ :: r, k + 1 => scalIdx r k
+
+theorem getD_tail (vs : List Nat) (j : Nat) : vs.tail.getD j 0 = vs.getD (j + 1) 0 := by
+  cases vs <;> simp [List.getD]
+
+theorem initBytes_scal : ∀ (cl : Cls) (vs : List Nat) (k : Nat), cl[k]? = some .scal →
+    readAt (initBytes cl vs) (foff cl k) 8 = le 8 (vs.getD (scalIdx cl k) 0)
+ | [], _, k, h => by simp at h
+ | f :: r, vs, 0, h => by
+    simp only [List.getElem?_cons_zero, Option.some.injEq] at h
+    subst h
+    simp only [initBytes, foff, scalIdx]
+    have := readAt_append_left (le 8 (vs.headD 0)) (initBytes r vs.tail)
+    rw [le_length] at this
+    rw [this]
+    cases vs <;> simp [List.headD, List.getD]
+ | .scal :: r, vs, k + 1, h => by
+    simp only [List.getElem?_cons_succ] at h
+    simp only [initBytes, foff, FK.size, scalIdx]
+    have := readAt_append_right (le 8 (vs.headD 0)) (initBytes r vs.tail) (foff r k) 8
+    rw [le_length] at this
+    rw [this, initBytes_scal r vs.tail k h, getD_tail, Nat.add_comm]
+ | .ref _ :: r, vs, k + 1, h => by
+    simp only [List.getElem?_cons_succ] at h
+    simp only [initBytes, foff, FK.size, scalIdx]
+    have := readAt_append_right refNullBytes (initBytes r vs) (foff r k) 8
+    rw [show refNullBytes.length = 8 from i64le_length _] at this
+    rw [this]; exact initBytes_scal r vs k h
+ | .uref _ :: r, vs, k + 1, h => by
+    simp only [List.getElem?_cons_succ] at h
+    simp only [initBytes, foff, FK.size, scalIdx]
+    have := readAt_append_right urefNullBytes (initBytes r vs) (foff r k) 8
+    rw [show urefNullBytes.length = 16 by simp [urefNullBytes, i64le_length]] at this
+    rw [this]; exact initBytes_scal r vs k h
+
+/-- **construct, then read**: every scalar field of the new node holds the value given for it (modulo 2^64; 0 when none was
+given), every reference field reads null, a union reference with member index -1 -/
+theorem newObj_reads {u : Univ} {s s1 : St} (hi : Inv u s) {c : Nat} {vs : List Nat} {o : Nat}
+    (h : newObj u s c vs = (s1, some o)) :
+    ∃ cl, u[c]? = some cl ∧ ∀ k fk, cl[k]? = some fk →
+      (fk = .scal → fromLE (readAt s1.b.mem (o + foff cl k) 8) = vs.getD (scalIdx cl k) 0 % 256 ^ 8) ∧
+      (fk ≠ .scal → deref s1.b.mem (o + foff cl k) = none) ∧
+      (∀ cs, fk = .uref cs → memberIdx s1.b.mem (o + foff cl k) = -1) := by
+  unfold newObj at h
+  split at h
+  · simp at h
+  · rename_i cl hcl
+    split at h
+    · simp at h
+    · rename_i o' b' hal
+      simp only [Prod.mk.injEq, Option.some.injEq] at h
+      obtain ⟨rfl, rfl⟩ := h
+      obtain ⟨c1, _, _, m1, _⟩ := allocate_spec hi hal
+      have hlen := initBytes_length cl vs
+      have hfit : o' + (initBytes cl vs).length ≤ b'.mem.length := by
+        rw [hlen]; unfold Buf.MemOK at m1; omega
+      refine ⟨cl, hcl, fun k fk hk => ?_⟩
+      have hle := foff_le cl k fk hk
+      have hrd : ∀ n, n ≤ fk.size → readAt (writeAt b'.mem o' (initBytes cl vs)) (o' + foff cl k) n
+          = readAt (initBytes cl vs) (foff cl k) n := by
+        intro n hn
+        rw [readAt_writeAt_inside _ _ _ hfit _ _ (by omega) (by omega)]
+        rw [show o' + foff cl k - o' = foff cl k by omega]
+      cases fk with
+      | scal =>
+        refine ⟨fun _ => ?_, fun hne => absurd rfl hne, (fun cs hcs => by cases hcs)⟩
+        simp only
+        rw [hrd 8 (by simp [FK.size]), initBytes_scal cl vs k hk, fromLE_le]
+      | ref c' =>
+        refine ⟨(fun hh => by cases hh), fun _ => ?_, (fun cs hcs => by cases hcs)⟩
+        apply deref_null_bytes
+        simp only
+        rw [hrd 8 (by simp [FK.size])]
+        exact initBytes_ref cl vs k c' hk
+      | uref cs =>
+        have := uref_null_bytes (m := writeAt b'.mem o' (initBytes cl vs)) (a := o' + foff cl k)
+          (by rw [hrd 16 (by simp [FK.size])]; exact initBytes_uref cl vs k cs hk)
+        exact ⟨(fun hh => by cases hh), fun _ => this.1, fun _ _ => this.2⟩
+
 /-! ### frame: which live regions an operation may change -/
 
 /-- every byte of the region of `e` is as before -/
